@@ -22,7 +22,9 @@ impl Ldap {
         1 <= r <= i32::MAX, //# C05.id_in_range
         !old(self).msgmap.1@.contains(r), //# C05.id_not_in_use
         final(self).msgmap.1@ == old(self).msgmap.1@.insert(r), //# C05.inuse_gains_exactly_r
-        final(self).msgmap.0 == r, //# C05.last_is_r
+        // the counter advances to the ID just handed out: an ID released by a timeout, an abandon or an early finish() is NOT the next
+        // one to be reused, so a late response under it finds no operation (C01) until the whole ID space has been cycled through
+        final(self).msgmap.0 == r, //# C01+C05.last_is_r
 //@ loop 1
             invariant_except_break
                 forall|k: i32| #![trigger msgmap.1@.contains(k)] visited(last_ldap_id, next_ldap_id, k) ==> msgmap.1@.contains(k), //# inv.visited_all_in_use
